@@ -450,14 +450,13 @@ def nstatements(node):
 # ------------------------------------------------------------------------------------ long programs
 class Deep:
     """Jugfiles with long dependency chains: when such a file is loaded under a recursion limit smaller than ~4 frames
-    per link, hashing the end of a chain raises RecursionError and barrier() answers through its explicit-stack
-    fallback (jug/barrier.py:_can_load_limit_recursion).  Several chains (independent, or linked to one another),
-    sinks of different kinds before one barrier, further chains after it that continue the earlier ones, a second
-    barrier, a builder with a chain and a barrier inside.
-    What jug supports is respected: the argument of bvalue() and the arguments of a compound are tasks whose hash is
-    cached already (defined before a barrier that has been passed) or which are only a few links away from such
-    tasks - hashing anything deeper raises RecursionError in jug itself (notes/strengthen_loader.txt, finding F1)."""
-    NEAR = 6                               # links a bvalue / compound argument may be away from a cached hash
+    per link, hashing the end of a chain raises RecursionError inside jug: barrier() then answers through its
+    explicit-stack fallback (jug/barrier.py:_can_load_limit_recursion), Task.hash() - reached from bvalue(), value(),
+    CompoundTask's probe, `jug check` - through its bottom-up fallback (defect D21, fixed in /repo 94cab01).
+    Several chains (independent, or linked to one another), sinks of different kinds; what meets the chain ends whose
+    hash is NOT cached yet: a barrier(), a bvalue() of such an end, a compound called on such an end (its builder
+    with a chain and possibly a barrier inside); then further chains that continue the earlier ones, met by the
+    next barrier / bvalue / compound; value-dependent continuations with chains inside."""
 
     def __init__(self, rng, chain=(55, 90), max_tasks=420):
         self.rng, self.chain, self.max_tasks = rng, chain, max_tasks
@@ -527,10 +526,6 @@ class Deep:
             else:
                 self.d(out, env, 'f', [{'c': rng.randrange(M)}, {'c': rng.randrange(M)}], 1)
 
-    def passed_barrier(self, env):
-        # every task defined so far has its hash cached once barrier() returned
-        env[:] = [(v, ty, 0) for (v, ty, _) in env]
-
     def segment(self, out, env, nchains, starts):
         rng = self.rng
         ends = []
@@ -547,90 +542,83 @@ class Deep:
             ends.append(self.d(out, env, 'f', [{'c': rng.randrange(M)}, {'c': rng.randrange(M)}], 1))
         return ends
 
-    def near(self, env, ty='int'):
-        return [v for (v, t, dd) in env if t == ty and dd <= self.NEAR]
+    def room(self):
+        return self.ntasks + self.chain[1] + 8 <= self.max_tasks
 
-    def program(self):
+    def compound(self, out, env, par, ends):
+        """c = comp(par): a builder with a chain (and possibly a barrier) inside; then a task that uses c"""
         rng = self.rng
-        out, env = [], []
+        name, var = self.fresh('comp'), self.fresh('c')
+        body, benv = [], [(par, 'int', 0)]
+        body.append({'op': 'mark', 'n': self.mark_n(), 'kind': 'plain'})
+        if self.room() and rng.random() < 0.8:
+            e = self.chain_from(body, benv, par, [])
+        else:
+            e = self.d(body, benv, 'f', [{'t': par}, {'c': rng.randrange(M)}], 1)
+        if rng.random() < 0.6:
+            body.append({'op': 'barrier'})
+            body.append({'op': 'mark', 'n': self.mark_n(), 'kind': 'bar'})
+            e = self.d(body, benv, 'f', [{'t': e}, {'c': rng.randrange(M)}], 1)
+        body.append({'op': 'ret', 'arg': {'t': e} if rng.random() < 0.7 else {'tup': [{'t': e}, {'c': rng.randrange(M)}]}})
+        out.append({'op': 'compound', 'var': var, 'name': name, 'params': [par], 'body': body})
+        rty = 'int' if 't' in body[-1]['arg'] else 'pair'
+        env.append((var, rty, 0))
+        if rty == 'int':
+            return self.d(out, env, 'f', [{'t': var}, {'c': rng.randrange(M)}], 1)
+        return self.d(out, env, 'tsum', [{'t': var}], 1)
+
+    def program(self, first=None, rounds=None):
+        """first: what meets the unhashed chain ends first ('barrier' | 'bvalue' | 'compound'; None: drawn)"""
+        rng = self.rng
+        root, env = [], []
+        out = root
         ends = self.segment(out, env, rng.choice([1, 2, 2, 2, 3, 3]), [])
-        out.append({'op': 'barrier'})
-        out.append({'op': 'mark', 'n': self.mark_n(), 'kind': 'bar'})
-        self.passed_barrier(env)
-        style = rng.choice(['one', 'two', 'two', 'bvalue', 'bvalue', 'compound', 'compound'])
-        if style == 'one':
-            self.shallow(out, env, ends)
-            out.append({'op': 'ret', 'arg': {'c': 0}})
-            return unflatten(out)
-        if style == 'bvalue':
-            # v = bvalue(end of a chain); the value decides which chain is continued
+        nrounds = rounds or rng.choice([1, 2, 2, 3])
+        complete = set()
+        for r in range(nrounds):
+            act = first if (r == 0 and first) else rng.choice(['barrier', 'barrier', 'barrier', 'bvalue', 'bvalue', 'compound', 'compound'])
+            if act == 'barrier':
+                out.append({'op': 'barrier'})
+                out.append({'op': 'mark', 'n': self.mark_n(), 'kind': 'bar'})
+                complete = set(v for (v, _, _) in env)       # value() may be used on these from here on
+            elif act == 'bvalue':
+                # v = bvalue(end of a chain): nothing has hashed that chain yet; the rest of the file is its continuation
+                tv = rng.choice(ends)
+                var = self.fresh('v')
+                rest = [{'op': 'mark', 'n': self.mark_n(), 'kind': 'bv', 'ref': {'t': tv}, 'vvar': var}]
+                out.append({'op': 'bvalue', 'var': var, 'arg': {'t': tv}, 'plain_value': False, 'branches': {'*': rest}})
+                out = rest
+            else:
+                ends = ends + [self.compound(out, env, rng.choice(ends), ends)]
+            if r < nrounds - 1 and self.room():
+                ends = self.segment(out, env, rng.choice([1, 1, 2]), ends)
+        if rng.random() < 0.3:
+            # v = bvalue(end); the value decides what follows (another chain and a barrier in two of the branches)
             tv = rng.choice(ends)
             var = self.fresh('v')
             branches = {}
             for x in range(M):
                 b, benv = [], list(env)
                 b.append({'op': 'mark', 'n': self.mark_n(), 'kind': 'bv', 'ref': {'t': tv}, 'vvar': var})
-                if x == 0 or self.ntasks + self.chain[1] + 8 > self.max_tasks:
+                if x == 0 or not self.room():
                     self.d(b, benv, 'f', [{'t': tv}, {'v': var, 'val': x}], 1)
-                    b.append({'op': 'ret', 'arg': {'c': 0}})
                 else:
                     e2 = self.segment(b, benv, 1, ends)
-                    b.append({'op': 'barrier'})
-                    b.append({'op': 'mark', 'n': self.mark_n(), 'kind': 'bar'})
+                    if x == 1:
+                        b.append({'op': 'barrier'})
+                        b.append({'op': 'mark', 'n': self.mark_n(), 'kind': 'bar'})
                     self.d(b, benv, 'f', [{'t': e2[-1]}, {'v': var, 'val': x}], 1)
-                    b.append({'op': 'ret', 'arg': {'c': 0}})
+                b.append({'op': 'ret', 'arg': {'c': 0}})
                 branches[str(x)] = b
-            out.append({'op': 'bvalue', 'var': var, 'arg': {'t': tv}, 'plain_value': rng.random() < 0.5, 'branches': branches})
-            return unflatten(out)
-        if style == 'compound':
-            # a builder with a chain and a barrier inside, called on the end of an earlier chain
-            par = rng.choice(ends)
-            name, var = self.fresh('comp'), self.fresh('c')
-            body, benv = [], [(par, 'int', 0)]
-            body.append({'op': 'mark', 'n': self.mark_n(), 'kind': 'plain'})
-            e = self.chain_from(body, benv, par, [])
-            inner_barrier = rng.random() < 0.7
-            if inner_barrier:
-                body.append({'op': 'barrier'})
-                body.append({'op': 'mark', 'n': self.mark_n(), 'kind': 'bar'})
-                e = self.d(body, benv, 'f', [{'t': e}, {'c': rng.randrange(M)}], 1)
-                body.append({'op': 'ret', 'arg': {'t': e}})
-            else:
-                # the builder returns the end of its chain: the tasks after it see an unhashed chain through nothing
-                # (the compound's hash is fixed), the outer barrier below meets the inner chain
-                body.append({'op': 'ret', 'arg': {'t': e}})
-            out.append({'op': 'compound', 'var': var, 'name': name, 'params': [par], 'body': body})
-            env.append((var, 'int', 0))
-            self.d(out, env, 'f', [{'t': var}, {'c': rng.randrange(M)}], 1)
-            ends2 = self.segment(out, env, 1, ends + [var]) if self.ntasks + self.chain[1] + 8 <= self.max_tasks else []
-            out.append({'op': 'barrier'})
-            out.append({'op': 'mark', 'n': self.mark_n(), 'kind': 'bar'})
-            self.passed_barrier(env)
-            self.shallow(out, env, ends2)
-            out.append({'op': 'ret', 'arg': {'c': 0}})
-            return unflatten(out)
-        # two: further chains that continue the earlier ones, a second barrier
-        ends2 = self.segment(out, env, rng.choice([1, 2, 2]), ends)
-        out.append({'op': 'barrier'})
-        out.append({'op': 'mark', 'n': self.mark_n(), 'kind': 'bar'})
-        self.passed_barrier(env)
-        if rng.random() < 0.5:
-            # bvalue of a task hashed by the barrier, or of a new one a few links away from such tasks
-            self.shallow(out, env, ends2)
-            tv = rng.choice(ends2 + self.near(env)[-3:])
-            var = self.fresh('v')
-            b = [{'op': 'mark', 'n': self.mark_n(), 'kind': 'bv', 'ref': {'t': tv}, 'vvar': var}]
-            self.shallow(b, env, ends2)
-            b.append({'op': 'ret', 'arg': {'c': 0}})
-            out.append({'op': 'bvalue', 'var': var, 'arg': {'t': tv}, 'plain_value': False, 'branches': {'*': b}})
+            out.append({'op': 'bvalue', 'var': var, 'arg': {'t': tv}, 'plain_value': tv in complete and rng.random() < 0.5, 'branches': branches})
         else:
-            self.shallow(out, env, ends2)
+            self.shallow(out, env, ends)
             out.append({'op': 'ret', 'arg': {'c': 0}})
-        return unflatten(out)
+        return unflatten(root)
 
 
-def generate_deep(rng, **kw):
-    return Deep(rng, **kw).program()
+def generate_deep(rng, first=None, rounds=None, **kw):
+    return Deep(rng, **kw).program(first=first, rounds=rounds)
 
 
 def generate_iter(rng, rounds=(5, 8)):
@@ -1100,9 +1088,11 @@ class low_recursion:
         sys.setrecursionlimit(self.old)
 
 
-def real_init(sc, store, slack=None):
+def real_init(sc, store, slack=None, hash_now=True):
     """jug.init on the generated jugfile against `store`, as `jug execute` does it before each phase.
-    Returns dict(tasks=[hash...], names=[...], hasbarrier=bool, marks=[(n, kind, detail)...], space)"""
+    Returns dict(tasks=[hash...], names=[...], hasbarrier=bool, marks=[(n, kind, detail)...], space).
+    hash_now=False: the hashes of the loaded tasks are not asked for here ('tasks' is None until task_hashes(r)), so
+    that what runs next (jug check) meets the tasks as jug.init left them - hashes of long chains not cached."""
     del jug.task.alltasks[:]
     del sc.marks.LOG[:]
     path = list(sys.path)
@@ -1113,17 +1103,24 @@ def real_init(sc, store, slack=None):
     finally:
         sys.path[:] = path
     tasks = list(jug.task.alltasks)
-    return {'tasks': [hx(t.hash()) for t in tasks], 'names': [t.name for t in tasks],
+    return {'tasks': [hx(t.hash()) for t in tasks] if hash_now else None, 'names': [t.name for t in tasks],
             'hasbarrier': bool(space.get('__jug__hasbarrier__', False)), 'marks': list(sc.marks.LOG),
             'space': space, 'store': st, 'objs': tasks}
 
 
-def real_check(store, space):
-    """the real CheckCommand on what is loaded now -> exit code"""
+def task_hashes(r):
+    if r['tasks'] is None:
+        r['tasks'] = [hx(t.hash()) for t in r['objs']]      # creation order: every hash needs cached ones only
+    return r['tasks']
+
+
+def real_check(store, space, slack=None):
+    """the real CheckCommand on what is loaded now -> exit code (an exception of jug propagates)"""
     from jug.subcommands.check import check as check_cmd
     try:
         with jugrun.quiet():
-            check_cmd.run(store=store, options=None, jugspace=space)
+            with low_recursion(slack):
+                check_cmd.run(store=store, options=None, jugspace=space)
     except SystemExit as e:
         return 0 if e.code in (None, 0) else (e.code if isinstance(e.code, int) else 1)
     raise HarnessError('jug check did not exit')
